@@ -241,6 +241,62 @@ def run(ctx):
                    f'there are invisible to every analysis built on the walker',
                    file=w.file, line=b.lineno, witness=WITNESS.get((ci.name, f)))
     ctx.setcount('child_field_pairs', pairs)
+    # -- the renderer reads only fields the walker maintains: a child node the renderer takes from a field that query_traversal never visits is not replaced
+    # when a visitor (the planner) replaces that child in the field the printers use - the rendered statement still contains the old sub-tree
+    RENDER = 'mindsdb_sql/render/sqlalchemy_render.py'
+    nrr = 0
+    if ctx.src.exists(RENDER):
+        rtree = ctx.src.tree(RENDER)
+        rcls = next((x for x in rtree.body if isinstance(x, ast.ClassDef) and x.name == 'SqlalchemyRender'), None)
+        te_ = next((m for m in (rcls.body if rcls else []) if isinstance(m, ast.FunctionDef) and m.name == 'to_expression'), None)
+        if te_ is not None:
+            subj = te_.args.args[1].arg
+            links = []
+            for first_ in [n for n in te_.body if isinstance(n, ast.If)]:
+                cur_ = first_
+                while cur_ is not None:
+                    links.append(cur_)
+                    cur_ = cur_.orelse[0] if len(cur_.orelse) == 1 and isinstance(cur_.orelse[0], ast.If) else None
+            for node_ in links:
+                t_ = node_.test
+                names_ = []
+                if isinstance(t_, ast.Call) and dotted(t_.func) == 'isinstance' and len(t_.args) == 2 and norm(t_.args[0]) == subj:
+                    names_ = [(dotted(x) or '').split('.')[-1] for x in (t_.args[1].elts if isinstance(t_.args[1], ast.Tuple) else [t_.args[1]])]
+                for cn_ in names_:
+                    ci_ = model.resolve(cn_) if cn_ in model.classes else None
+                    b_ = w.branch_for(model, ci_) if ci_ is not None else None
+                    if b_ is None:
+                        continue
+                    visited_ = {s_.field for s_ in b_.sites}
+                    for st_ in node_.body:
+                        for c_ in ast.walk(st_):
+                            if isinstance(c_, ast.Call) and isinstance(c_.func, ast.Attribute) and norm(c_.func.value) == 'self' \
+                                    and c_.func.attr in ('to_expression', 'prepare_select', 'to_function', 'prepare_case', 'to_order_by', 'to_table'):
+                                for a_ in c_.args:
+                                    base_ = a_
+                                    while isinstance(base_, ast.Subscript):
+                                        base_ = base_.value
+                                    if isinstance(base_, ast.Attribute) and isinstance(base_.value, ast.Name) and base_.value.id == subj:
+                                        nrr += 1
+                                        fld_ = base_.attr
+                                        # a property that hands out (an element of) another field is a view of that field
+                                        prop_ = next((m_ for c2_ in model.mro(ci_) for m_ in c2_.node.body if isinstance(m_, ast.FunctionDef) and m_.name == fld_
+                                                      and any(norm(d_) == 'property' for d_ in m_.decorator_list)), None)
+                                        if prop_ is not None:
+                                            rets_ = [r_.value for r_ in ast.walk(prop_) if isinstance(r_, ast.Return) and r_.value is not None]
+                                            if len(rets_) == 1:
+                                                rb_ = rets_[0]
+                                                while isinstance(rb_, ast.Subscript):
+                                                    rb_ = rb_.value
+                                                if isinstance(rb_, ast.Attribute) and isinstance(rb_.value, ast.Name) and rb_.value.id == prop_.args.args[0].arg:
+                                                    fld_ = rb_.attr
+                                        ctx.ob('C13.renderer-reads-visited', f'{cn_}.{base_.attr}', fld_ in visited_,
+                                               f'the renderer takes the child of a {cn_} from `{subj}.{base_.attr}`, a field the {"/".join(b_.classes)} branch of query_traversal '
+                                               f'never visits: when a visitor replaces that child (a sub-select planned apart becomes a parameter) the renderer still renders '
+                                               f'the old sub-tree', file=RENDER, line=c_.lineno,
+                                               witness='select * from int1.t where exists (select 1 from int2.u)')
+    ctx.setcount('renderer_child_reads', nrr)
+    ctx.floor('renderer_child_reads', 10)
 
     # -- per branch / site -------------------------------------------------------------------------------
     for b in w.branches:
